@@ -17,7 +17,7 @@ RULE = ("modules of every entry kind (empty docs, classes nested to depth 3 with
         "else at section level, each doc marker only inside its own entry node, members inside their class node. "
         "Non-trivial: >=3 entry kinds, >=1 body ending in a literal block, list or directive, >=1 class with members; "
         "distinct by SHA-1 of the case")
-RULE_MORE = "doccomments closed on their last text line ('# text #]]')."
+RULE_MORE = "doccomments closed on their last text line ('# text #]]'). Later: runs of empty lines before indented lines; values of ~250 characters; escape sequences in single quoted values; duplicates."
 ASSUMPTIONS = ["docutils 0.23 is the structure judge; Sphinx directives are stubbed (content parsed as nested body)",
                "argument values contain no line breaks; doc bodies are valid standalone reST"]
 BUDGET = {"quick": {"shards": 8, "examples": 100}, "thorough": {"shards": 16, "examples": 2000}}
